@@ -813,7 +813,15 @@ impl MachineState {
 
             let max_steps_n = match max_steps {
                 Ok(Number::Fixnum(n)) => Some(n.get_num()),
-                Ok(Number::Integer(n)) => (&*n).try_into().ok(),
+                Ok(Number::Integer(n)) => {
+                    // a negative maximum fails however large it is.
+                    if n.sign() == Sign::Negative {
+                        self.fail = true;
+                        return Ok(());
+                    }
+
+                    (&*n).try_into().ok()
+                }
                 _ => None,
             };
 
